@@ -845,3 +845,30 @@ Proof.
     apply Proofs_Disk.Zlen_zero_nil. pose proof (Proofs_Disk.Zlen_nonneg (ex_put (EX p))). apply Z.ltb_ge in H1. lia.
   - apply disk_eq_refl.
 Qed.
+
+(* ---------------------------------------------------------------- offsets of any magnitude *)
+(* The theorems above quantify over Z: commit_stream_correct_write / wait_refines_blocking_put hold for file offsets
+   of any size (row pitches of several GiB included), PROVIDED qsort's comparator orders the offsets (sorter_ok).
+   A comparator returning the difference truncated to a 32-bit int - `return (int)(a->off - b->off);` - does not:   *)
+Definition cmp_trunc32 (a b : Z) : Z :=
+  let d := (a - b) mod 4294967296 in if d <? 2147483648 then d else d - 4294967296.
+Definition cmp_trunc32_orders_full : Prop :=
+  forall a b, 0 <= a -> 0 <= b -> (0 < cmp_trunc32 a b <-> b < a) /\ (cmp_trunc32 a b = 0 <-> a = b).
+Theorem cmp_trunc32_orders_refuted : ~ cmp_trunc32_orders_full.
+Proof.
+  intro H. destruct (H 2147483648 0 ltac:(lia) ltac:(lia)) as [[_ H1] _].
+  assert (C : 0 < cmp_trunc32 2147483648 0) by (apply H1; lia).
+  vm_compute in C. discriminate C.
+Qed.
+Example cmp_trunc32_equal_at_4GiB : cmp_trunc32 4294967296 0 = 0 /\ cmp_trunc32 (3 * 1073741824) 0 < 0.
+Proof. vm_compute. split; reflexivity. Qed.
+(* within 2^31 it is an order: the defect needs segments of one interleaved group >= 2 GiB apart *)
+Lemma cmp_trunc32_small : forall a b, - 2147483648 <= a - b < 2147483648 -> cmp_trunc32 a b = a - b.
+Proof.
+  intros a b H. unfold cmp_trunc32. cbv zeta.
+  pose proof (Z.mod_pos_bound (a - b) 4294967296 ltac:(lia)) as Hb.
+  pose proof (Z.div_mod (a - b) 4294967296 ltac:(lia)) as Hd.
+  destruct ((a - b) mod 4294967296 <? 2147483648) eqn:E.
+  - apply Z.ltb_lt in E. assert ((a - b) / 4294967296 = 0) by nia. nia.
+  - apply Z.ltb_ge in E. assert ((a - b) / 4294967296 = -1) by nia. nia.
+Qed.
